@@ -83,7 +83,7 @@ MIN_MONITORS = {"*": {"grid.formula": 20, "grid.count": 20, "index.slim_for_sub_
 SUB_MAX = 8
 FRACS = (0.5, 0.99, 0.9999)
 TOLS = (None, 1e-3, 1e-1)
-SCHEDULES = ([2, 4], [2, 4, 8], [3, 5], [4])
+SCHEDULES = ([2, 4], [2, 4, 8], [3, 5], [4], [1, 2, 4], [1, 4])
 SCHEDULES_THOROUGH = SCHEDULES + ([2, 4, 8, 16],)
 TIE = 1e-9
 
@@ -323,9 +323,16 @@ def make_profiles(aa):
                 self.centre = centre
                 self.log = []
 
+            ret = "ndarray"
+
             def _eval(self, grid):
                 self.log.append((type(grid).__name__, np.array(np.asarray(grid), dtype=float).reshape(-1, 2).copy(), grid))
-                return self.f(np.asarray(grid))
+                v = self.f(np.asarray(grid))
+                if self.ret == "list":           # a user function written as a comprehension returns a plain list (or tuple) of values
+                    return np.asarray(v).tolist()
+                if self.ret == "tuple":
+                    return tuple(np.asarray(v).tolist())
+                return v
 
             @aa.over_sample
             def raw(obj, grid, *args, **kwargs):          # noqa: N805 (see ASSUMPTIONS: first parameter named obj)
@@ -506,6 +513,9 @@ def check_uniform(ctx, i):
                   function=fd, expected=exp_f, got=lambda: _np(b), **W)
     for variant in (("raw", "stacked") if i % 2 == 0 else ("stacked", "raw"))[:1 if i % 3 else 2]:
         p = P(f)
+        if variant == "raw" and i % 4 in (1, 2) and int(np.max(sub)) > 1 and fd["kind"] not in ("step_int", "mask_bool"):
+            p.ret = ("list", "tuple")[i % 4 - 1]
+            ctx.classes["function_returns:" + p.ret] += 1
         grid = aa.Grid2D.from_mask(mask=mask, over_sampling=aa.OverSamplingUniform(sub_size=arg()))
         gin = np.array(_np(grid), dtype=float)
         ok, res = ctx.guarded("decorator.exception", lambda: getattr(p, variant)(grid))
